@@ -335,6 +335,23 @@ def cases(rng, tier):
                 n = rng.choice([0, 1, 3, 9, 30])
                 consts.append(("s", bytes(rng.choice(b"abc XYZ&\"" + bytes(NAMED)) for _ in range(n))))
         out.append(consts_case("pool", consts, wide=rng.random() < 0.3, whole=(i % 4 == 0)))
+    # 4b. an inline integer under a unary minus: the literal must still be read as a number (`--5` would be a Lingo comment)
+    vals = [0, 1, 5, 127, 128, 255, 200, 129] + [rng.randrange(256) for _ in range(6)]
+    lines, spec_vals = [], []
+    for p1 in vals:
+        v = p1 - 256 if p1 > 127 else p1
+        lscr = L.build_lscr([dict(name=0, args=[], locals=[], code=bytes([0x41, p1, 0x09, 0x42, 0x01, 0x57, 0x01, 0x01]))])
+        lnam = L.build_lnam([b"h", b"put"])
+        lines += [f"lscr lingo {hx(lscr)} {hx(lnam)}", f"lscr js {hx(lscr)} {hx(lnam)}"]
+        spec_vals.append(v)
+    for hi, lo in [(0x80, 0x00), (0xFF, 0xFF), (0x7F, 0xFF), (0x01, 0x00), (0xFE, 0x0C)]:
+        v = hi * 256 + lo
+        v = v - 65536 if v > 32767 else v
+        lscr = L.build_lscr([dict(name=0, args=[], locals=[], code=bytes([0x81, hi, lo, 0x09, 0x42, 0x01, 0x57, 0x01, 0x01]))])
+        lnam = L.build_lnam([b"h", b"put"])
+        lines += [f"lscr lingo {hx(lscr)} {hx(lnam)}", f"lscr js {hx(lscr)} {hx(lnam)}"]
+        spec_vals.append(v)
+    out.append(Case(kind="negated-int", spec=dict(values=spec_vals), lines=lines, expect=[None] * len(lines)))
     # 5. the readers themselves (Python mirror vs Lean)
     nev = dict(quick=1500, thorough=20000, search=0)[tier]
     lines = []
@@ -476,8 +493,30 @@ def _put_literals(text, lang):
     return out
 
 
+def _eval_negated(text):
+    """value of `-X` where X is an integer literal, possibly parenthesised; None if it does not read as that"""
+    if not text.startswith("-"):
+        return None
+    x = text[1:]
+    if x.startswith("-"):
+        return None                      # `--` starts a comment in Lingo (and is a decrement in JavaScript)
+    if x.startswith("(") and x.endswith(")"):
+        x = x[1:-1]
+    v = py_eval_int(x)
+    return None if v is None else -v
+
+
 def oracle(case, io):
     k = case["kind"]
+    if k == "negated-int":
+        for i, v in enumerate(case["spec"]["values"]):
+            for lang, o in (("lingo", io[2 * i]), ("js", io[2 * i + 1])):
+                if o == '"error"':
+                    return f"{lang}: negated inline integer {v} raised"
+                lits = _put_literals(json.loads(o), lang)
+                if len(lits) != 1 or _eval_negated(lits[0]) != -v:
+                    return f"{lang}: `put -({v})` is printed {lits!r}, which does not read as {-v}"
+        return None
     if k == "readers":
         for li in range(len(case["lines"]) - 1):
             a, b = case["lines"][li].split(), case["lines"][li + 1].split()
